@@ -40,6 +40,10 @@ def units(tier):
       fns=[ALIASES["entryexit"]], backend=os.environ.get("C14_BE", "kissat"), mode="ABS", defines=["CXX2C_ABS_ARITH"])
     U("lemma.perm_intersects", "h_lemma_perm_intersects", clause="intersects(box, ray, ip): cyclic relabelling of the axes leaves the answer unchanged",
       fns=[ALIASES["intersects_ip"]], backend=os.environ.get("C14_BE", "kissat"), mode="ABS", defines=["CXX2C_ABS_ARITH"])
+    if os.environ.get("C14_INBOX"):
+        # experimental (not registered): IEEE, full-width; cvc5 exceeded 25 min - kissat attempt
+        U("lemma.ip_in_box", "h_lemma_ip_in_box", clause="when intersects(box, ray, ip) is true, ip lies in the closed box (IEEE)", fns=[ALIASES["intersects_ip"]], backend=os.environ["C14_INBOX"], timeout=6000)
+        U("lemma.entryexit_in_box", "h_lemma_entryexit_in_box", clause="when findEntryAndExitPoints is true, entry and exit lie in the closed box (IEEE)", fns=[ALIASES["entryexit"]], backend=os.environ["C14_INBOX"], timeout=6000)
     # lemma.ip_in_box / lemma.entryexit_in_box (reported points lie in the closed box): cvc5 exceeds 25 min on the IEEE formula - not claimed
     return us
 
